@@ -550,7 +550,9 @@ impl WmoParser {
             reader.seek(SeekFrom::Current(4))?;
 
             // Get portal vertices
-            let mut vertices = Vec::with_capacity(n_vertices);
+            // Only indices inside MOPV are copied, so reserve no more than that
+            let in_bounds = portal_vertices.len().saturating_sub(vertex_index);
+            let mut vertices = Vec::with_capacity(n_vertices.min(in_bounds));
             for i in 0..n_vertices {
                 let vertex_idx = vertex_index + i;
                 if vertex_idx < portal_vertices.len() {
